@@ -340,6 +340,20 @@ func (rpi *RetentionPolicyInfo) ShardGroupByTimestampAndEngineType(timestamp tim
 	return nil
 }
 
+// overlapsLiveShardGroup reports whether another shard group of the same engine type that is not deleted overlaps sg.
+func (rpi *RetentionPolicyInfo) overlapsLiveShardGroup(sg *ShardGroupInfo) bool {
+	for i := range rpi.ShardGroups {
+		other := &rpi.ShardGroups[i]
+		if other.ID == sg.ID || other.Deleted() || other.EngineType != sg.EngineType {
+			continue
+		}
+		if other.StartTime.Before(sg.EndTime) && sg.StartTime.Before(other.EndTime) {
+			return true
+		}
+	}
+	return false
+}
+
 // ExpiredShardGroups returns the Shard Groups which are considered expired, for the given time.
 func (rpi *RetentionPolicyInfo) ExpiredShardGroups(t time.Time) []*ShardGroupInfo {
 	var groups = make([]*ShardGroupInfo, 0)
